@@ -12,7 +12,7 @@ import (
 // marked memory that is not made under a mutex or through sync/atomic, sync.Pool or sync.Map
 // is a potential data race between concurrent transactions and is reported.
 func VpC06Confinement() {
-	conf := "SecRuleEngine On\nSecRequestBodyAccess On\nSecResponseBodyAccess On\nSecResponseBodyMimeType text/plain\n" +
+	conf := "SecRuleEngine On\nSecRequestBodyAccess On\nSecResponseBodyAccess On\nSecResponseBodyMimeType text/plain\nSecAuditLogParts ABCFHZ\n" +
 		"SecAction \"id:1,phase:1,pass,nolog,ctl:ruleRemoveTargetById=10;ARGS:x,ctl:ruleRemoveTargetByTag=tt;ARGS:y,ctl:ruleRemoveById=90,ctl:ruleRemoveById=91-92\"\n" +
 		"SecRule ARGS|!ARGS:e1 \"@vpsee 0\" \"id:10,phase:1,pass,tag:'tt',setvar:tx.a=+1,setvar:tx.m_%{matched_var_name}=%{matched_var}\"\n" +
 		"SecRule ARGS|!ARGS:e1|!ARGS:e2|!ARGS:e3 \"@vpsee 1\" \"id:11,phase:1,pass,tag:'tt',capture,multiMatch,t:lowercase,t:removeNulls\"\n" +
@@ -20,7 +20,7 @@ func VpC06Confinement() {
 		"  SecRule TX:c \"@vpsee 2\" \"setvar:tx.d=1\"\n" +
 		"SecRule ARGS \"@pm aa bb\" \"id:13,phase:2,pass,skip:1\"\n" +
 		"SecRule ARGS \"@vpsee 3\" \"id:14,phase:2,pass,skipAfter:M\"\n" +
-		"SecRule REQUEST_HEADERS:x \"@streq 1\" \"id:15,phase:2,pass,ctl:ruleEngine=DetectionOnly,ctl:auditEngine=On\"\n" +
+		"SecRule REQUEST_HEADERS:x \"@streq 1\" \"id:15,phase:2,pass,ctl:ruleEngine=DetectionOnly,ctl:auditEngine=On,ctl:auditLogParts=-C,ctl:auditLogParts=+E\"\n" +
 		"SecMarker M\n" +
 		"SecRule RESPONSE_BODY \"@contains z\" \"id:16,phase:4,deny,status:500\"\n" +
 		"SecRule ARGS \"@vpsee 4\" \"id:90,phase:2,pass\"\n"
